@@ -50,7 +50,7 @@ PROPS["C09"] = {
 }
 PROPS["C16"] = {
     "lean_modules": ["AvroModel.Props.C16"],
-    "required_theorems": ["accepted_prefix", "error_surfaces", "runFrom_surfaces", "writeAll_sim", "step_sim", "runFrom_sim"],
+    "required_theorems": ["accepted_prefix", "error_surfaces", "runFrom_surfaces", "writeAll_sim", "step_sim", "runFrom_sim", "accepted_eq_take", "crash_consistent", "crash_delivers_prefix", "crash_ok_only_at_boundary"],
     "harness": [("ENC16", "C16")],
     "level_text": "Proof: for every failing write index k, every number of bytes accepted by the failing call, every call history and any "
                   "compressor, what the writer accepted is a byte-for-byte prefix of the fault-free output (simulation between the faulty and the "
@@ -235,7 +235,7 @@ PROPS["C13"] = {
 }
 PROPS["C02"] = {
     "lean_modules": ["AvroModel.Props.C02"],
-    "required_theorems": ["record_valid", "independent_reader_recovers", "reference_decoder_inverts", "null_branch_iff", "omits_cases", "null_clause_full_false", "null_clause_partial", "container_frames", "spec_reader_reads_frames", "container_valid"],
+    "required_theorems": ["record_valid", "independent_reader_recovers", "reference_decoder_inverts", "null_branch_iff", "omits_cases", "null_clause_full_false", "null_clause_partial", "container_frames", "spec_reader_reads_frames", "container_valid", "spec_reader_reads_header", "file_valid"],
     "harness": [("WR2", "C02")],
     "level_text": "Proof: every record the encoder buffers is the specification's encoding of the datum its value denotes under the schema "
                   "(record_valid), the null branch is written exactly when Omit holds and Omit is characterised in value terms (null_branch_iff, "
@@ -326,7 +326,7 @@ PROPS["C07"] = {
 }
 PROPS["C08"] = {
     "lean_modules": ["AvroModel.Props.C08"],
-    "required_theorems": ["truncation", "truncation_prefix", "ok_iff_boundary", "length_mem_boundaries"],
+    "required_theorems": ["truncation", "truncation_prefix", "ok_iff_boundary", "length_mem_boundaries", "written_file_truncation"],
     "harness": ["C08"],
     "level_text": "Proof over the same model: for every valid file f = header ++ frames (any codec, partition, record type) and EVERY cut position "
                   "k <= length, reading the first k bytes delivers exactly the records of the blocks whose payload ends at or before k (each whole, in "
@@ -383,7 +383,7 @@ PROPS["C14"] = {
 
 PROPS["C01"] = {
     "lean_modules": ["AvroModel.Props.C01", "AvroModel.Props.C01b"],
-    "required_theorems": ["record_roundtrip", "record_exact", "two_records", "blocks_partition", "flush_leaves_nothing", "file_roundtrip", "value_roundtrip", "value_roundtrip_exact", "value_roundtrip_spec", "norm_idempotent", "typed_codec_exists", "typed_roundtrip", "record_exact_budget", "value_roundtrip_budget", "value_roundtrip_exact_budget", "value_roundtrip_spec_budget", "value_roundtrip_go", "file_value_roundtrip", "file_value_roundtrip_go"],
+    "required_theorems": ["record_roundtrip", "record_exact", "two_records", "blocks_partition", "flush_leaves_nothing", "file_roundtrip", "value_roundtrip", "value_roundtrip_exact", "value_roundtrip_spec", "norm_idempotent", "typed_codec_exists", "typed_roundtrip", "record_exact_budget", "value_roundtrip_budget", "value_roundtrip_exact_budget", "value_roundtrip_spec_budget", "value_roundtrip_go", "file_value_roundtrip", "file_value_roundtrip_go", "file_roundtrip_mkHeader"],
     "harness": [("E2E", "C01")],
     "level_text": "Proof in layers that are composed formally. (1) records: record_roundtrip / record_exact - Codec.Read of what "
                   "Codec.Write appended, followed by anything, delivers the written datum's value and the exact rest, for every codec tree, "
